@@ -11,10 +11,11 @@ var (
 	pubN        = flag.Int("n", 2, "scenarios per (family, type)")
 	pubFaults   = flag.String("faults", "none", "none | single")
 	pubMaxRuns  = flag.Int("maxruns", 4000, "cap on executed runs")
+	pubGate     = flag.Int("gate", 600, "size of the sample of the request product (0 = all)")
 )
 
 var inboxTypes = []string{"Create", "Update", "Delete", "Follow", "Accept", "Reject", "Add", "Remove", "Like", "Announce", "Undo", "Block", "Travel"}
-var outboxTypes = []string{"Note", "Create", "Update", "Delete", "Add", "Remove", "Like", "Block", "Follow", "Undo", "Listen"}
+var outboxTypes = []string{"Note", "Create", "CreateBig", "Update", "Delete", "Add", "Remove", "Like", "Block", "Follow", "Undo", "Listen"}
 
 func genScenarios(r *rng) []*scenario {
 	var out []*scenario
@@ -36,6 +37,8 @@ func genScenarios(r *rng) []*scenario {
 					out = append(out, genOutbox(r, ty, k))
 				}
 			}
+		case "gate":
+			out = append(out, gateScenarios(r, *pubGate)...)
 		case "get":
 			for _, kind := range []string{"inbox", "outbox", "handler"} {
 				for i := 0; i < *pubN; i++ {
@@ -60,11 +63,11 @@ func runPub() {
 	for _, sc := range scs {
 		res := runScenario(sc)
 		runs = append(runs, em.run(sc, &res))
-		meta = append(meta, map[string]interface{}{"family": sc.Family, "faults": sc.Faults, "result": res.Result, "handled": res.Handled, "statuses": res.Statuses, "body": sc.Body, "send": sc.Send, "panic": res.PanicMsg, "events": len(res.Trace)})
+		meta = append(meta, map[string]interface{}{"family": sc.Family, "note": sc.Note, "faults": sc.Faults, "result": res.Result, "handled": res.Handled, "statuses": res.Statuses, "body": sc.Body, "send": sc.Send, "panic": res.PanicMsg, "events": len(res.Trace)})
 		fam[sc.Family]++
 		results[res.Result]++
 		s.Evaluations++
-		if *pubFaults == "single" {
+		if *pubFaults == "single" && !strings.HasPrefix(sc.Family, "gate:") {
 			for f := 0; f < res.NFall && len(runs) < *pubMaxRuns; f++ {
 				sc2 := *sc
 				sc2.Faults = []int{f}
